@@ -184,6 +184,20 @@ Theorem C13_new_cert_after_renewal :
 Proof. split; [exact renewed_cert_is_cached|exact lookup_prefers_unexpired]. Qed.
 Print Assumptions C13_new_cert_after_renewal.
 
+(** "... subsequent handshakes receive the new certificate": in the state right after the worker's
+    reload step the cache lookup for the name yields a certificate of another generation than the
+    old one, and a handshake that starts (or re-enters after its wait) then goes on with exactly
+    that certificate *)
+Theorem C13_subsequent_handshakes_get_the_new_certificate :
+  (forall s t th ch c bg s0 b s', t_pc th = PRenReload ch c bg -> store s (t_name th) = Some s0 ->
+     gen s0 <> gen c -> thread_step s t th (AStep b) = Some s' ->
+     exists y, lookup (cache s' (t_name th)) = Some y /\ gen y <> gen c) /\
+  (forall s t th load b y, t_pc th = PStart load -> lookup (cache s (t_name th)) = Some y ->
+     exists s' th', thread_step s t th (AStep b) = Some s' /\ thr s' t = Some th' /\
+       (t_pc th' = PMaint y \/ t_pc th' = PRet (RCert y))).
+Proof. split; [exact after_renewal_lookup_is_new|exact after_renewal_handshake_gets_new]. Qed.
+Print Assumptions C13_subsequent_handshakes_get_the_new_certificate.
+
 (** ** an expired certificate is not served while its renewal can still succeed.
     A goroutine hands back an expired certificate c only
     (a) on re-entry after a wait, and then the channel whose close woke it ([t_waited], a history
